@@ -199,7 +199,8 @@ fn gen_cfg(p: &Profile, rng: &mut Rng) -> PoolCfg {
             .collect()
     };
     let runtime = p.timeouts && rng.chance(1, 2);
-    let dur = |rng: &mut Rng| Duration::from_millis(rng.range(1, 50) * 10);
+    // a zero create / recycle timeout is legal too: the step gets exactly one poll
+    let dur = |rng: &mut Rng| if rng.chance(1, 10) { Duration::ZERO } else { Duration::from_millis(rng.range(1, 50) * 10) };
     let (wait, create, recycle) = if runtime && rng.chance(2, 3) {
         (
             match rng.below(5) {
@@ -245,9 +246,10 @@ fn gen_kind(p: &Profile, cfg: &PoolCfg, rng: &mut Rng) -> TaskKind {
             _ => None,
         };
         let (create, recycle) = if rt_ok && rng.chance(1, 3) {
+            let dur0 = |rng: &mut Rng| if rng.chance(1, 6) { Duration::ZERO } else { dur(rng) };
             (
-                if rng.chance(1, 2) { Some(dur(rng)) } else { None },
-                if rng.chance(1, 2) { Some(dur(rng)) } else { None },
+                if rng.chance(1, 2) { Some(dur0(rng)) } else { None },
+                if rng.chance(1, 2) { Some(dur0(rng)) } else { None },
             )
         } else {
             (None, None)
